@@ -84,50 +84,59 @@ theorem consistent (input : Bytes) :
 value `p_ini_file_parameter_string` returns -/
 def parseView (input : Bytes) : List (Bytes × List (Bytes × Bytes)) := fileView (parse input)
 
-/-- `p_ini_file_sections` lists the last section of the file first (it is appended after the loop while
-the earlier ones were prepended, and the listing reverses the list), then the others in file order. -/
+/-- `p_ini_file_sections` lists the final section of the file first (it is appended after the loop while the
+earlier ones were prepended, and the listing reverses the list), then the others in file order: the reverse
+of the order in which look-ups go through the sections. -/
 def listed (d : Doc) : List (Bytes × List (Bytes × Bytes)) :=
-  match d.secs.reverse with
-  | [] => []
-  | last :: initRev => meaningOf [last] ++ meaningOf initRev.reverse
+  PV.IniSpec.meaningIn d.secs (PV.IniSpec.lookupOrder d.secs).reverse
+
+/-- … spelled out -/
+theorem listed_eq (d : Doc) (init : List Sec) (last : Sec) (hs : d.secs = init ++ [last]) :
+    listed d = PV.IniSpec.meaningIn d.secs [last] ++ PV.IniSpec.meaningIn d.secs init := by
+  unfold listed
+  rw [hs, lookupOrder_snoc]
+  have e : (init.reverse ++ [last]).reverse = [last] ++ init := by simp
+  rw [e]
+  simp only [PV.IniSpec.meaningIn, List.filter_append, List.map_append]
 
 /-
 Full-strength statement (what pinifile.h promises):
 
     theorem parse_render (σ) (d : Doc) : parseView (render σ d) ~ meaning d          -- for EVERY document
 
-It is false of the code; `parse_render_partial` proves it for the documents satisfying `IniSpec.WF`,
-which excludes exactly:
+It is false of the code; `parse_render_partial` proves it for the documents satisfying `IniSpec.WF`.
+
+Part of the documents the theorem speaks about (the AST has them, `meaning` says what the API shows):
+  * blank lines of any blanks, comment lines (also with '=' in them), lines before the first section;
+  * LF and CR LF line ends, a final line without newline; any of four byte-order marks before the first line;
+  * blanks around key, '=', value, section name; trailing comments; quoted values with comment markers, '=',
+    the other quote, blanks inside (blanks directly inside the quotes are dropped: `" a "` is `a`); values with '=';
+  * `key =` without any value text, also followed by a comment: the line assigns nothing (an empty value is
+    written `""` or `''`) — `IniSpec.Entry.binding`;
+  * repeated section headers: a repeated header starts a section of its own; both are listed, under the same
+    name, and look-ups by that name see one of them — `IniSpec.seenSec`, `repeated_header_not_merged`;
+  * physical lines of up to 1024 bytes, line end and byte-order mark included.
+
+`WF` excludes exactly:
   * F3 (repaired in the worktree; the theorem needs `Generated.Ini.commentSkip = true`): a comment line
     that contains '=' inside a section was stored as a key — `f3_unfixed_code_stores_the_comment`;
-  * `key =` with nothing after it (dropped; an empty value needs "" or '') and repeated section headers
-    (not merged): corners the documentation does not promise (WF hypotheses, not findings);
   * comment markers *after* the first non-blank byte of a line without a preceding value, e.g.
     `k # c = d` (stored as key "k # c"): the AST has no such line — `residual_comment_with_equals`;
-  * a quoted value that is exactly the other kind of empty quotes, `"''"` / `'""'` (emptied),
-    blanks directly inside the quotes (`" a "` is stored as `a`), an unquoted value starting with a quote;
-  * keys starting with '[' on a line ending in ']' (taken for a header); section names with ']';
-  * NUL bytes; physical lines longer than 1024 bytes (split by `fgets`); a line that starts with the
-    bytes of a byte-order mark (the BOM test runs on every line); the UTF-32 LE mark (`utf32le_bom_dead`).
+  * a quoted value that is, blanks aside, exactly the other kind of empty quotes, `"''"` / `'""'` (emptied) —
+    `quoted_empty_quotes_are_emptied`; an unquoted value starting with a quote — `unquoted_leading_quote_is_stripped`;
+  * keys starting with '[' (on a line ending in ']' they are taken for a header — `bracket_key_is_a_header`);
+    section names with ']' — `section_name_is_cut_at_bracket`;
+  * NUL bytes; physical lines longer than 1024 bytes (split by `fgets` — `over_long_line_is_split`); a line that
+    starts with the bytes of a byte-order mark (the BOM test runs on every line); the UTF-32 LE mark (`utf32le_bom_dead`).
 -/
 
 /-- For a well-formed document, rendered with any byte-order mark, the API shows exactly the documented
 meaning: the non-empty sections, each key once with the value of its last assignment (blanks, quotes and
-trailing comments removed), nothing from comment lines, blank lines or the preamble — in the listing
-order of `p_ini_file_sections`. -/
+trailing comments removed), nothing from comment lines, blank lines, lines without a value or the preamble —
+in the listing order of `p_ini_file_sections`. -/
 theorem parse_render_partial (σ : Style) (d : Doc) (hwf : WF σ d = true) :
-    parseView (render σ d) = listed d := by
-  unfold parseView listed
-  cases hr : d.secs.reverse with
-  | nil =>
-    have hs : d.secs = [] := by simpa using hr
-    rw [parse_render_nosections σ d hwf hs]
-    rfl
-  | cons last initRev =>
-    have hs : d.secs = initRev.reverse ++ [last] := by
-      have := congrArg List.reverse hr
-      simpa using this
-    exact fileView_parse_render σ d hwf initRev.reverse last hs
+    parseView (render σ d) = listed d :=
+  fileView_parse_render σ d hwf
 
 /-- … and up to the order of sections that is `meaning d` -/
 theorem parse_render_perm (σ : Style) (d : Doc) (hwf : WF σ d = true) :
@@ -142,11 +151,37 @@ theorem parse_render_perm (σ : Style) (d : Doc) (hwf : WF σ d = true) :
     have hs : d.secs = initRev.reverse ++ [last] := by
       have := congrArg List.reverse hr
       simpa using this
-    rw [hs]
-    have : meaningOf (initRev.reverse ++ [last]) = meaningOf initRev.reverse ++ meaningOf [last] := by
-      simp [meaningOf, List.filterMap_append]
-    rw [this]
+    rw [hs, lookupOrder_snoc]
+    simp only [PV.IniSpec.meaningIn, List.reverse_append, List.reverse_reverse, List.reverse_cons, List.reverse_nil,
+      List.nil_append, List.filter_append, List.map_append]
     exact List.perm_append_comm
+
+/-- `parse_render_partial` as it was stated before repeated headers, `key =` and blanks inside quotes were admitted
+(the former `WF` is the present one plus `Strict`: distinct section names, non-empty unquoted values, no blanks
+directly inside quotes): then every section is read on its own and every value literally, and the present theorem
+says what the former one said. -/
+theorem parse_render_strict (σ : Style) (d : Doc) (hwf : WF σ d = true) (hst : Strict d = true) :
+    meaning d = literalMeaning d.secs ∧
+    parseView (render σ d) = match d.secs.reverse with
+      | [] => []
+      | last :: initRev => literalMeaning [last] ++ literalMeaning initRev.reverse := by
+  simp only [Strict, Bool.and_eq_true, List.all_eq_true] at hst
+  obtain ⟨hd, hb⟩ := hst
+  have hm : ∀ secs : List Sec, (∀ s ∈ secs, s ∈ d.secs) → PV.IniSpec.meaningIn d.secs secs = literalMeaning secs := by
+    intro secs hsub
+    rw [meaningIn_of_distinct d.secs hd secs hsub, meaningOf_strict secs (fun s hs => hb s (hsub s hs))]
+  refine ⟨hm d.secs (fun s hs => hs), ?_⟩
+  rw [parse_render_partial σ d hwf]
+  cases hr : d.secs.reverse with
+  | nil =>
+    have hs : d.secs = [] := by simpa using hr
+    simp [listed, hs, PV.IniSpec.meaningIn, PV.IniSpec.lookupOrder]
+  | cons last initRev =>
+    have hs : d.secs = initRev.reverse ++ [last] := by
+      have := congrArg List.reverse hr
+      simpa using this
+    rw [listed_eq d initRev.reverse last hs, hm [last] (by intro s h; rw [hs]; simp at h; simp [h]),
+      hm initRev.reverse (by intro s h; rw [hs]; simp at h; simp [h])]
 
 /-- Lookups: every key of the meaning is reported present and `p_ini_file_parameter_string` returns its
 value, whatever default is passed. -/
@@ -260,6 +295,37 @@ theorem utf32le_bom_dead :
     parseWith true ([0x00, 0x00, 0xFE, 0xFF] ++ [91, 115, 93, 10, 107, 61, 118, 10]) = [⟨[115], [([107], [118])]⟩] := by
   decide
 
+/-- `[s]␊k = 'it␊`: an unquoted value that starts with a quote loses it — the quoted format stores `it` and
+`sscanf` has its two conversions before it misses the closing quote (the AST has no such line: `WF` hypothesis) -/
+theorem unquoted_leading_quote_is_stripped :
+    parseWith true [91, 115, 93, 10, 107, 32, 61, 32, 39, 105, 116, 10] = [⟨[115], [([107], [105, 116])]⟩] := by decide
+
+/-- `[s]␊a=1␊[k=v]␊b=2␊`: a key that starts with '[' on a line that ends in ']' is taken for the header of a
+section named `k=v` (documentation: a `key = value` line of section `s`; `WF` hypothesis) -/
+theorem bracket_key_is_a_header :
+    parseWith true [91, 115, 93, 10, 97, 61, 49, 10, 91, 107, 61, 118, 93, 10, 98, 61, 50, 10]
+      = [⟨[115], [([97], [49])]⟩, ⟨[107, 61, 118], [([98], [50])]⟩] := by decide
+
+/-- `[a]b]␊k=v␊`: a section name is cut at its first ']' (`WF` hypothesis) -/
+theorem section_name_is_cut_at_bracket :
+    parseWith true [91, 97, 93, 98, 93, 10, 107, 61, 118, 10] = [⟨[97], [([107], [118])]⟩] := by decide
+
+set_option maxRecDepth 100000 in
+/-- a physical line of 1026 bytes, `k=v…vw␊` with 1022 `v`: `fgets` splits it after 1024 bytes, the value loses its
+last byte and the rest is read as a line of its own (pinifile.h states no limit; the property is claimed up to
+1024 bytes per line: `WF` hypothesis) -/
+theorem over_long_line_is_split :
+    parseWith true ([91, 115, 93, 10, 107, 61] ++ List.replicate 1022 118 ++ [119, 10])
+      = [⟨[115], [([107], List.replicate 1022 118)]⟩] := by decide
+
+/-- `[a]␊k=1␊[b]␊x=1␊[a]␊j=2␊`: a repeated header is not merged with the earlier section of that name: `a` is listed
+twice, `p_ini_file_keys`/the getters see the keys of one of the two only (here the first: `j` is not found).
+pinifile.h does not say what a repeated name means; `meaning` describes this behaviour (`IniSpec.seenSec`). -/
+theorem repeated_header_not_merged :
+    let f := parseWith true [91, 97, 93, 10, 107, 61, 49, 10, 91, 98, 93, 10, 120, 61, 49, 10, 91, 97, 93, 10, 106, 61, 50, 10]
+    f = [⟨[98], [([120], [49])]⟩, ⟨[97], [([107], [49])]⟩, ⟨[97], [([106], [50])]⟩] ∧
+    sections f = [[97], [97], [98]] ∧ keys f [97] = [[107]] ∧ findParameter f [97] [106] = none := by decide
+
 /-! ## (e) the object: life cycle and NULL arguments -/
 
 /-- `p_ini_file_new (NULL)` is NULL; a new object is not parsed. -/
@@ -369,22 +435,46 @@ theorem strtod_trims (s : Bytes) :
 
 /-! ## non-vacuity -/
 
-/-- ␣[ s ]␍␊ ; c = d␊ k = "v;1" # t␊ k='w'␊ [e]␊ [t]␊ n = 42 (no final newline), with a UTF-8 BOM -/
+/-- ␣[ s ]␍␊ ; c = d␊ k = "v;1" # t␊ k='w'␊ e = ; n␊ f =␍␊ q=" a=b "␊ [e]␊ [t]␊ n = 42 (no final newline), with a UTF-8 BOM -/
 def sampleDoc : Doc :=
   { preamble := [⟨.entry ⟨[], [120], [], [], .none, [49], [], none⟩, .lf⟩],
     secs := [
       ⟨⟨[32], [32], [115], [32], [], .crlf⟩,
         [⟨.comment [] ⟨59, [32, 99, 32, 61, 32, 100]⟩, .lf⟩,
          ⟨.entry ⟨[], [107], [32], [32], .double, [118, 59, 49], [32], some ⟨35, [32, 116]⟩⟩, .lf⟩,
-         ⟨.entry ⟨[], [107], [], [], .single, [119], [], none⟩, .lf⟩]⟩,
+         ⟨.entry ⟨[], [107], [], [], .single, [119], [], none⟩, .lf⟩,
+         ⟨.entry ⟨[], [101], [32], [], .none, [], [32], some ⟨59, [32, 110]⟩⟩, .lf⟩,
+         ⟨.entry ⟨[], [102], [32], [], .none, [], [], none⟩, .crlf⟩,
+         ⟨.entry ⟨[], [113], [], [], .double, [32, 97, 61, 98, 32], [], none⟩, .lf⟩]⟩,
       ⟨⟨[], [], [101], [], [], .lf⟩, []⟩,
       ⟨⟨[], [], [116], [], [], .lf⟩,
         [⟨.entry ⟨[], [110], [32], [32], .none, [52, 50], [], none⟩, .eof⟩]⟩] }
 
 example : WF ⟨.utf8⟩ sampleDoc = true := by decide
-example : meaning sampleDoc = [([115], [([107], [119])]), ([116], [([110], [52, 50])])] := by decide
-example : parseView (render ⟨.utf8⟩ sampleDoc) = [([116], [([110], [52, 50])]), ([115], [([107], [119])])] :=
+example : meaning sampleDoc = [([115], [([107], [119]), ([113], [97, 61, 98])]), ([116], [([110], [52, 50])])] := by decide
+example : parseView (render ⟨.utf8⟩ sampleDoc) = [([116], [([110], [52, 50])]), ([115], [([107], [119]), ([113], [97, 61, 98])])] :=
   parse_render_partial ⟨.utf8⟩ sampleDoc (by decide)
+/-- [a]␊k=1␊[b]␊x=1␊[a]␊j=2␊: repeated section header -/
+def repeatedDoc : Doc :=
+  { preamble := [],
+    secs := [
+      ⟨⟨[], [], [97], [], [], .lf⟩, [⟨.entry ⟨[], [107], [], [], .none, [49], [], none⟩, .lf⟩]⟩,
+      ⟨⟨[], [], [98], [], [], .lf⟩, [⟨.entry ⟨[], [120], [], [], .none, [49], [], none⟩, .lf⟩]⟩,
+      ⟨⟨[], [], [97], [], [], .lf⟩, [⟨.entry ⟨[], [106], [], [], .none, [50], [], none⟩, .lf⟩]⟩] }
+
+example : WF ⟨.none⟩ repeatedDoc = true := by decide
+example : meaning repeatedDoc = [([97], [([107], [49])]), ([98], [([120], [49])]), ([97], [([107], [49])])] := by decide
+example : listed repeatedDoc = [([97], [([107], [49])]), ([97], [([107], [49])]), ([98], [([120], [49])])] := by decide
+example : parseView (render ⟨.none⟩ repeatedDoc) = [([97], [([107], [49])]), ([97], [([107], [49])]), ([98], [([120], [49])])] :=
+  parse_render_partial ⟨.none⟩ repeatedDoc (by decide)
+example : (parseView (render ⟨.utf16le⟩ repeatedDoc)).Perm (meaning repeatedDoc) := parse_render_perm _ _ (by decide)
+example : parameterString (parse (render ⟨.none⟩ repeatedDoc)) [97] [107] (some [100]) = some [49] :=
+  (lookup_render ⟨.none⟩ repeatedDoc (by decide) [97] [([107], [49])] (by decide) [107] [49] (by decide) (some [100])).2.2
+example : parameterString (parse (render ⟨.utf8⟩ sampleDoc)) [115] [113] none = some [97, 61, 98] :=
+  (lookup_render ⟨.utf8⟩ sampleDoc (by decide) [115] [([107], [119]), ([113], [97, 61, 98])] (by decide) [113] [97, 61, 98] (by decide) none).2.2
+example : Strict { sampleDoc with secs := sampleDoc.secs.drop 1 } = true := by decide
+example : parseView (render ⟨.none⟩ { sampleDoc with secs := sampleDoc.secs.drop 1 }) = [([116], [([110], [52, 50])])] :=
+  (parse_render_strict ⟨.none⟩ { sampleDoc with secs := sampleDoc.secs.drop 1 } (by decide) (by decide)).2
 example : (parse f3Input = []) := by decide
 example : atoi [32, 45, 49, 50, 120] = .val (-12) := by decide
 example : atoi [50, 49, 52, 55, 52, 56, 51, 54, 52, 56] = .overflow := by decide
